@@ -473,7 +473,9 @@ class RequireMatcher(WrappingMatcher):
 
     def skip_to_quality(self, minquality):
         skipped = self.a.skip_to_quality(minquality)
-        self.child._find_next()
+        if (self.a.is_active() and self.b.is_active()
+            and self.a.id() != self.b.id()):
+            self.child._find_next()
         return skipped
 
     def weight(self):
